@@ -13,6 +13,20 @@ checks = {
    note="Register mentions are known from the generator (independent of truth's parser); AstVm + M1 trusted as in C02.",
    technique="bounded exhaustive enumeration of programs x scratch-pool sizes with register-set and differential (monotonicity) oracles"),
 }
+checks.update({
+ "C06": dict(level=MC, ref="DESIGN.md §4 C06",
+   text="Every nesting of the structured statements (if/else-if/else, while, do-while, times with/without clobber, loop, break, free blocks, relative time labels at block start/end/between) up to the stated deviation/depth bound is executed by AstVm before and after the real desugar_blocks pass, from 5 valuations and under both counting-jump flavours; logs, times and registers must agree.",
+   note="AstVm trusted on both sides; non-decreasing time labels and non-negative loop counts only (AstVm artefacts otherwise, DESIGN §3.6).",
+   technique="bounded exhaustive enumeration of structured programs; differential execution before/after the pass in the reference interpreter"),
+ "C07": dict(level=MC, ref="DESIGN.md §4 C07",
+   text="Every flat jump graph of <= k slots (8 jump kinds to every label position, time labels, interrupt labels, difficulty-tagged statements) and every bounded structured program is compiled, then decompiled twice by the real Raiser + postprocess_decompiled (blocks off/on); structural clauses (time-label sequence, timed gotos, label reference counts) are checked on the two texts and both are re-parsed and executed by AstVm from 5 valuations.",
+   note="AstVm trusted; jumps into recovered blocks are run after desugar_blocks (C06 validates that pass).",
+   technique="bounded exhaustive enumeration of jump graphs; differential execution of two decompilations plus structural invariants"),
+ "C13": dict(level=MC, ref="DESIGN.md §4 C13",
+   text="Compile: every sequence of <= n items over absolute/relative/const-expr/i32::MAX labels, markers and loop/if/times/free blocks is compiled and the time of every emitted marker, jump, jump time-argument and counter assignment is compared with the M3 label-arithmetic model. Decompile: every stored-time sequence over a boundary set (with jumps) is raised; M3 applied to the printed text must reproduce the stored times and recompiling must reproduce the instructions bit for bit.",
+   note="M3 (harness model) and the harness's own instruction-table decoding are trusted.",
+   technique="bounded exhaustive enumeration of label sequences and stored-time sequences against a label-arithmetic reference model"),
+})
 pending = {}
 def main():
     try:
